@@ -433,8 +433,23 @@ class Gen:
                 elif k < 0.17: w = w + '--' + self.word(); self.features.add('en')
                 elif k < 0.21: w = w + '---' + self.word(); self.features.add('em')
                 elif k < 0.24: w = w + "'s"
+                elif k < 0.27: w = w + ' -- ' + self.word(); self.features.add('spdash')
             out.append(w)
         return ' '.join(out)
+
+    def ligs(self):
+        """one sentence that certainly holds every quote/dash ligature source: It's ``quoted'' -- text---more `x'"""
+        self.features.add('ligs')
+        return "%s's ``%s'' -- %s---%s `%s' %s--%s." % tuple(self.word() for _ in range(7))
+
+    def single_par_env(self, depth):
+        """an environment that does not group paragraphs itself, holding ONE paragraph (no blank line inside)"""
+        self.features.add('singlepar-env')
+        env = self.rng.choice(['quote', 'center', 'quotation', 'flushleft', 'flushright', 'verse'])
+        body = self.ligs() if self.subs else self.words()
+        if self.rng.random() < 0.5:
+            body += ' ' + self.inlines(min(depth, 1))
+        return '\\begin{%s}\n%s\n\\end{%s}\n' % (env, body, env)
 
     def inline(self, depth):
         r = self.rng
@@ -494,7 +509,8 @@ class Gen:
         self.features.add('block')
         if k < 0.50:
             env = r.choice(['itemize', 'enumerate'])
-            items = ''.join('\\item %s\n' % self.blocks(depth - 1, 1, 2).strip() for _ in range(r.randint(1, 3)))
+            items = ''.join('\\item %s\n' % (self.single_par_env(depth - 1).strip() if r.random() < 0.2 else self.blocks(depth - 1, 1, 2).strip())
+                            for _ in range(r.randint(1, 3)))
             return '\\begin{%s}\n%s\\end{%s}\n' % (env, items, env)
         if k < 0.58:
             items = ''.join('\\item[%s] %s\n' % (self.words(1, 2), self.blocks(depth - 1, 1, 2).strip()) for _ in range(r.randint(1, 3)))
@@ -505,6 +521,8 @@ class Gen:
             for _ in range(r.randint(1, 3)):
                 rows.append(' & '.join(self.inlines(min(depth - 1, 1)) for _ in range(cols)))
             return '\\begin{tabular}{%s}\n%s\n\\end{tabular}\n\n' % ('l' * cols, ' \\\\\n'.join(rows))
+        if k < 0.73:
+            return self.single_par_env(depth - 1)
         if k < 0.78:
             env = r.choice(['quote', 'center', 'quotation', 'flushleft'])
             return '\\begin{%s}\n%s\\end{%s}\n' % (env, self.blocks(depth - 1, 1, 2), env)
@@ -521,19 +539,22 @@ class Gen:
     def blocks(self, depth, lo=1, hi=3):
         return ''.join(self.block(depth) for _ in range(self.rng.randint(lo, hi)))
 
-    SECS = ['chapter', 'section', 'subsection', 'subsubsection', 'paragraph']
+    SECS = ['part', 'chapter', 'section', 'subsection', 'subsubsection', 'paragraph', 'subparagraph']
 
     def sections(self, cls, depth):
+        """every sectioning command of the class: part, (chapter,) section ... paragraph, subparagraph; starred or not"""
         r = self.rng
         out = []
-        lvl0 = 0 if cls == 'book' else 1
-        cur = lvl0
-        for _ in range(r.randint(0, 5)):
+        allowed = [0, 1, 2, 3, 4, 5, 6] if cls == 'book' else [0, 2, 3, 4, 5, 6]
+        pos = r.choice([0, 1, 1, 1]) if r.random() < 0.3 else 1
+        for _ in range(r.randint(0, 6)):
             self.features.add('section')
-            cur = max(lvl0, min(lvl0 + 3, cur + r.choice([-2, -1, 0, 0, 1, 1])))
+            pos = max(0, min(len(allowed) - 1, pos + r.choice([-2, -1, 0, 0, 1, 1, 1])))
+            name = self.SECS[allowed[pos]]
+            self.features.add('sec:' + name)
             star = '*' if r.random() < 0.2 else ''
             opt = '[%s]' % self.words(1, 1) if (not star and r.random() < 0.1) else ''
-            out.append('\\%s%s%s{%s}\n' % (self.SECS[cur], star, opt, self.inlines(1)))
+            out.append('\\%s%s%s{%s}\n' % (name, star, opt, self.inlines(1)))
             if r.random() < 0.85:
                 out.append(self.blocks(depth, 1, 3))
         return ''.join(out)
@@ -544,7 +565,8 @@ class Gen:
         depth = r.randint(1, 4)
         body = ''
         if r.random() < 0.8:
-            body += self.blocks(depth, 1, 2)
+            # the blank line keeps a paragraph token at document level (the class without one is the known finding body-without-par)
+            body += self.blocks(depth, 1, 2) + ('' if self.nopar else '\n\n')
         elif r.random() < 0.5:
             body += self.inlines(2) + ('' if self.nopar else '\n\n')
         body += self.sections(cls, depth)
@@ -825,6 +847,13 @@ def doc7_check(src, markers, expect_subs=True):
                 for k in n.childNodes:
                     if k.level == PAR:
                         problems.append('paragraph contains a paragraph')
+                    elif k.level < PAR:
+                        problems.append('paragraph contains a sectioning unit: %s (level %d)' % (k.nodeName, k.level))
+            if DOCL < lvl < ENDS and dk_of(type(n)) == 's' and container is not None:
+                cl = getattr(container, 'level', None)
+                if not (container.nodeName == 'document' or (dk_of(type(container)) == 's' and cl is not None and cl < lvl)):
+                    problems.append('sectioning unit %s (level %d) is listed by %s (level %s), not by the document or a shallower unit' % (
+                        n.nodeName, lvl, container.nodeName, cl))
         for k in n.childNodes:
             walk(k, n, nosub, body)
 
@@ -842,6 +871,7 @@ def doc7_check(src, markers, expect_subs=True):
         # the exact glyphs the source spelling asks for (the generator writes these spellings only in running text)
         body_text = ''.join(t for t, ns, b in text if b and not ns)
         for rx, fmt in ((r'(W[a-z]+K)---(W[a-z]+K)', '%s\u2014%s'), (r'(?<!-)(W[a-z]+K)--(W[a-z]+K)', '%s\u2013%s'),
+                        (r'(W[a-z]+K) -- (W[a-z]+K)', '%s \u2013 %s'),
                         (r"``(W[a-z]+K)''", '\u201c%s\u201d'), (r"(?<!`)`(W[a-z]+K)'(?!')", '\u2018%s\u2019')):
             for m in re.finditer(rx, src):
                 want = fmt % m.groups()
